@@ -154,9 +154,8 @@ Definition sepform (x : nat) (t1 : list nat) (y : nat) : bool :=
   | [] => false
   end.
 
-(* children of two sequences: pairwise in R, where one child of the SECOND grammar's sequence that is
-   itself a plain sequence may stand for a segment of children of the first one (wrappers and nesting are
-   recognised on the second grammar only; swap the arguments for the other direction) *)
+(* children of two sequences: pairwise in R, where one child that is itself a plain sequence may stand
+   for a segment of children of the other side (either side) *)
 Fixpoint seq_align (n : nat) (l1 l2 : list nat) : bool :=
   match n with
   | 0 => false
@@ -169,6 +168,11 @@ Fixpoint seq_align (n : nat) (l1 l2 : list nat) : bool :=
       || match seq_kids g2 y with
          | Some ks => (length ks <=? length l1) && zip_in false (firstn (length ks) l1) ks
                       && seq_align n' (skipn (length ks) l1) t2
+         | None => false
+         end
+      || match seq_kids g1 x with
+         | Some ks => (length ks <=? length l2) && zip_in false ks (firstn (length ks) l2)
+                      && seq_align n' t1 (skipn (length ks) l2)
          | None => false
          end
     | _, _ => false
@@ -218,6 +222,10 @@ Definition local_ok (p : nat * nat * bool) : bool :=
       struct_ok a b
       || match unit_kid g2 j with
          | Some y => pin_any i y && (negb c || efree g1 EDEPTH i)
+         | None => false
+         end
+      || match unit_kid g1 i with
+         | Some x => pin_any x j && (negb c || efree g2 EDEPTH j)
          | None => false
          end
     | _, _ => false
@@ -304,14 +312,16 @@ Definition proposals (p : nat * nat * bool) : list (nat * nat * bool) :=
     | Some a, Some b =>
       let k1 := n_kids a in let k2 := n_kids b in
       let seps := match n_sep a, n_sep b with Some x, Some y => [(x, y, false)] | _, _ => [] end in
-      let units := match unit_kid g2 j with
-                   | Some y => [(i, y, false)]
-                   | None => []
+      let units := match unit_kid g2 j, unit_kid g1 i with
+                   | Some y, _ => [(i, y, false)]
+                   | None, Some x => [(x, j, false)]
+                   | None, None => []
                    end in
       if same_class (n_kind a) (n_kind b) then
         let c := child_ctx (n_kind a) in
         (if Nat.eqb (length k1) (length k2) then zipc c k1 k2
          else if Nat.eqb (length k1) (length (expand g2 k2)) then zipc c k1 (expand g2 k2)
+         else if Nat.eqb (length (expand g1 k1)) (length k2) then zipc c (expand g1 k1) k2
          else match n_kind a with
               | KSeq => match align_props (S (length k1)) k1 k2 with Some l => l | None => [] end
               | _ => []
